@@ -1580,6 +1580,13 @@ func (w *Writer) writeWrappedMathHelpers(fn *ir.Function) {
 			continue
 		}
 		wrappedMath[key] = struct{}{}
+		// One definition per module, not per function: two functions that both
+		// call extractBits on u32 must not define naga_extractBits(uint, …) twice.
+		moduleKey := fmt.Sprintf("bits:%d:%d:%d:%s", mathExpr.Fun, scalar.Kind, scalar.Width, vecStr)
+		if _, done := w.wrappedMathHelpers[moduleKey]; done {
+			continue
+		}
+		w.wrappedMathHelpers[moduleKey] = struct{}{}
 
 		// Build HLSL type name
 		var typeName string
